@@ -31,4 +31,20 @@ def expected (R : Nat → Bytes → Option Nat) : Req → Bytes → Option Outco
       | none => none
   | .untilClose, buf => some (.bytes buf)
 
+/-- bytes a completed read takes out of the buffer -/
+def consumed : Outcome → Nat
+  | .bytes b => b.length
+  | .into k _ => k
+  | _ => 0
+
+/-- "later reads succeed from the data that was already buffered": the reads issued one after the other on a closed
+    stream whose buffer holds `buf` — each one is served from what the earlier ones left over (`some data`), or cannot
+    be satisfied by it (`none`: it has to fail, and takes nothing) -/
+def laterReads (R : Nat → Bytes → Option Nat) : List Req → Bytes → List (Option Outcome)
+  | [], _ => []
+  | q :: qs, buf =>
+    match expected R q buf with
+    | some o => some o :: laterReads R qs (buf.drop (consumed o))
+    | none => none :: laterReads R qs buf
+
 end TornadoModel.C13.Spec
